@@ -468,6 +468,11 @@ impl MorselAggregateExec {
                     return Ok(None);
                 };
                 use parquet::file::statistics::Statistics;
+                // A NULL key has no slot in the direct-address array: decline
+                // unless the footer proves the key column null-free.
+                if stats.null_count_opt() != Some(0) {
+                    return Ok(None);
+                }
                 let (lo, hi) = match stats {
                     Statistics::Int64(s) => match (s.min_opt(), s.max_opt()) {
                         (Some(a), Some(b)) => (*a, *b),
@@ -543,17 +548,23 @@ impl MorselAggregateExec {
             source.total_work(),
             rayon::current_num_threads(),
         );
+        // Set when a batch carries a NULL key the footer did not announce:
+        // the accumulators are local to this call, so the whole attempt is
+        // abandoned and the generic path re-reads the files.
+        let null_key_seen = std::sync::atomic::AtomicBool::new(false);
         let results: Vec<Result<()>> = (0..num_threads)
             .into_par_iter()
             .map(|_| {
                 while let Some(work) = source.get_work() {
+                    if null_key_seen.load(Ordering::Relaxed) {
+                        return Ok(());
+                    }
                     let batches = source.read_row_group(&work)?;
                     for batch in batches {
                         let key_arr = batch.column(key_pos);
                         if key_arr.null_count() > 0 {
-                            return Err(QueryError::Execution(
-                                "dense agg: null group keys unsupported".into(),
-                            ));
+                            null_key_seen.store(true, Ordering::Relaxed);
+                            return Ok(());
                         }
                         let keys_i64: Vec<i64> = match key_arr.data_type() {
                             DataType::Int64 => key_arr
@@ -675,6 +686,9 @@ impl MorselAggregateExec {
             .collect();
         for r in results {
             r?;
+        }
+        if null_key_seen.load(Ordering::Relaxed) {
+            return Ok(None);
         }
         if timing {
             eprintln!(
